@@ -759,10 +759,16 @@ def exponential_by_lambda(lamb: list | Interval) -> Pbox:
     a_quantile = a.ppf(Params.p_values)
     b_quantile = b.ppf(Params.p_values)
 
+    # moments of Exp(rate): mean 1/rate, variance 1/rate^2, both decreasing in the rate
+    from .intervals.number import Interval as I
+
+    mean = I(1 / interval_lambda.hi, 1 / interval_lambda.lo)
+    var = I(1 / interval_lambda.hi**2, 1 / interval_lambda.lo**2)
+
     try:
-        p = Staircase(left=a_quantile, right=b_quantile)
+        p = Staircase(left=a_quantile, right=b_quantile, mean=mean, var=var)
     except Exception as e:
-        p = Staircase(left=b_quantile, right=a_quantile)
+        p = Staircase(left=b_quantile, right=a_quantile, mean=mean, var=var)
     return p
 
 
